@@ -35,6 +35,9 @@ def check_solve(rep, run: Run, D: Blocks):
     cost = ev["cost"]
     if isinstance(cost, Blocks) and cost.uid == D.uid:
         rep.discharged("WS-SOLVE", fi, ev["node"], "the full tiled matrix is passed to linear_sum_assignment")
+    elif getattr(cost, "uid", None) == D.uid or not isinstance(cost, (Arr, Blocks)):
+        rep.unmodelled("WS-SOLVE", fi, ev["node"], "the value that reaches the assignment solver could not be compared with the "
+                                                   "assembled matrix")
     else:
         rep.refuted("WS-SOLVE", fi, ev["node"], "the assignment solver is not given the augmented cost matrix itself "
                                                 "(a sub-block, a transformed copy or another array)")
@@ -109,7 +112,7 @@ def run(project: Project, rep, tier: str):
     rep.floor("WS-TILE", 7)
     rep.floor("WS-FILTER", 2)
     rep.floor("WS-SOLVE", 3)
-    rep.floor("WS-EMPTY", 2)
+    rep.floor("WS-EMPTY", 4)
     for t in ("sklearn.metrics.pairwise.pairwise_distances", "scipy.optimize.linear_sum_assignment", "numpy.cos",
               "numpy.sin", "numpy.ndarray.dot", "numpy.fill_diagonal", "numpy.sum", "numpy.isfinite"):
         rep.trust(t)
